@@ -29,46 +29,46 @@ theorem C07_commute_fails_pinned :
 
 /-- **`CacheInv` holds after every history**: in particular every cache file of a stack of the path that is
 at least as new as a product directory agrees with the database on that product. -/
-theorem C07_cache_inv (nst : Nat) (dirs : List DirEnt) (h : List WCmd) :
-    CacheInv (runHistory (World.init nst dirs) h) := history_inv nst dirs h
+theorem C07_cache_inv (nst : Nat) (dirs : List DirEnt) (tfs : List TFile) (h : List WCmd) :
+    CacheInv (runHistory (World.init nst dirs tfs) h) := history_inv nst dirs tfs h
 
 /-- **A cache file that the load rule accepts agrees with the files**, after every history, for every user,
 stack of the path and flavor (the fallback flavor's file too, when a process of that flavor reads it). -/
-theorem C07_accepted_cache_agrees (nst : Nat) (dirs : List DirEnt) (h : List WCmd) (cf : CacheFile)
-    (hc : cf ∈ (runHistory (World.init nst dirs) h).caches) (hs : cf.stack < nst)
-    (ha : accepts (runHistory (World.init nst dirs) h) cf = true) :
-    AgreeOn cf.c (runHistory (World.init nst dirs) h).db cf.stack cf.flav := by
-  have hinv := history_inv nst dirs h
-  have hn : (runHistory (World.init nst dirs) h).nst = nst := history_nst _ h
+theorem C07_accepted_cache_agrees (nst : Nat) (dirs : List DirEnt) (tfs : List TFile) (h : List WCmd) (cf : CacheFile)
+    (hc : cf ∈ (runHistory (World.init nst dirs tfs) h).caches) (hs : cf.stack < nst)
+    (ha : accepts (runHistory (World.init nst dirs tfs) h) cf = true) :
+    AgreeOn cf.c (runHistory (World.init nst dirs tfs) h).db cf.stack cf.flav := by
+  have hinv := history_inv nst dirs tfs h
+  have hn : (runHistory (World.init nst dirs tfs) h).nst = nst := history_nst _ h
   exact accepts_agree hinv hc (by rw [hn]; exact hs) ha
 
 /-- **C07.**  After every history, what a fresh process of any user `u` and flavor `self` holds in memory after
 `Eups.__init__` — accepted cache files or rebuilt stacks — is what the files say, for every flavor the process can
 see (its native flavor and the fallback flavor), in every stack of the path; and it shows no declaration that the
 files do not hold. -/
-theorem C07_agree (nst : Nat) (dirs : List DirEnt) (h : List WCmd) (u : User) (self : Flav)
-    (s : Nat) (hs : s < (runHistory (World.init nst dirs) h).nst) (f : Flav) (hf : f ∈ fallbacks self) :
-    AgreeOn (viaCache (runHistory (World.init nst dirs) h) u self) (runHistory (World.init nst dirs) h).db s f ∧
-    ∀ d ∈ (viaCache (runHistory (World.init nst dirs) h) u self).decls,
-      d ∈ (runHistory (World.init nst dirs) h).db.decls := by
-  obtain ⟨_, hv, hfb, hsub⟩ := load_inv (history_inv nst dirs h) u self
+theorem C07_agree (nst : Nat) (dirs : List DirEnt) (tfs : List TFile) (h : List WCmd) (u : User) (self : Flav)
+    (s : Nat) (hs : s < (runHistory (World.init nst dirs tfs) h).nst) (f : Flav) (hf : f ∈ fallbacks self) :
+    AgreeOn (viaCache (runHistory (World.init nst dirs tfs) h) u self) (runHistory (World.init nst dirs tfs) h).db s f ∧
+    ∀ d ∈ (viaCache (runHistory (World.init nst dirs tfs) h) u self).decls,
+      d ∈ (runHistory (World.init nst dirs tfs) h).db.decls := by
+  obtain ⟨_, hv, hfb, hsub⟩ := load_inv (history_inv nst dirs tfs h) u self
   exact ⟨hv s hs f (hfb s hs f hf), hsub⟩
 
 /-- **The four queries of the property**, any user, any stack of the path, any flavor `f` the querying process
 can see, after any history: *is (n, v) declared*, *where is it* (the declaration found: directory and table),
 *which tags does it carry*, *which version has tag t* — through the cache and through the files. -/
-theorem C07_queries_agree (nst : Nat) (dirs : List DirEnt) (h : List WCmd) (u : User) (self : Flav)
-    (s : Nat) (hs : s < (runHistory (World.init nst dirs) h).nst) (f : Flav) (hf : f ∈ fallbacks self)
+theorem C07_queries_agree (nst : Nat) (dirs : List DirEnt) (tfs : List TFile) (h : List WCmd) (u : User) (self : Flav)
+    (s : Nat) (hs : s < (runHistory (World.init nst dirs tfs) h).nst) (f : Flav) (hf : f ∈ fallbacks self)
     (n : Name) (v : Ver) (t : Tag) :
-    let w := runHistory (World.init nst dirs) h
+    let w := runHistory (World.init nst dirs tfs) h
     (viaCache w u self).hasDecl s n v f = w.db.hasDecl s n v f ∧
     (viaCache w u self).findDecl s n v f = w.db.findDecl s n v f ∧
     (∀ d : Decl, d.stack = s → d.flav = f → d.name = n →
         ∀ t', t' ∈ (viaCache w u self).tagsOf d ↔ t' ∈ w.db.tagsOf d) ∧
     (viaCache w u self).tagVer s t n f = w.db.tagVer s t n f := by
   intro w
-  have hag := (C07_agree nst dirs h u self s hs f hf).1 n
-  have hku := (history_inv nst dirs h).dbinv.ku
+  have hag := (C07_agree nst dirs tfs h u self s hs f hf).1 n
+  have hku := (history_inv nst dirs tfs h).dbinv.ku
   refine ⟨hag.hasDecl v, findDecl_agree hag hku v, ?_, tagVer_agree hag hku t⟩
   intro d h1 h2 h3 t'
   simp only [Spec.tagsOf, List.mem_map, List.mem_filter]
@@ -132,7 +132,7 @@ def p : Name := [112]
 def L : Flav := [76]
 def dir (f : Flav) (v : Ver) : Dir := ⟨0, relDir f p v⟩
 def dirs : List DirEnt := [⟨dir L [49], p⟩, ⟨dir L [50], p⟩, ⟨dir generic [49], p⟩]
-def declareCmd (f : Flav) (v : Ver) : Cmd := .declare ⟨f, p, v, some (dir f v), none, false, none, false, false, []⟩
+def declareCmd (f : Flav) (v : Ver) : Cmd := .declare ⟨f, p, v, some (dir f v), none, .dflt, none, false, false, []⟩
 
 /-- the history of D1: `declare p 1` (becomes current), `declare p 2`, `undeclare p 1`, `declare p 1`, four
 processes of one user -/
